@@ -468,6 +468,19 @@ where
                 self.put(d, c);
                 "ok".into()
             }
+            ["clonefrom", d, s] => {
+                // `dst.clone_from(&src)` in place (Clone::clone_from may be overridden; Vec::clone_from / clone_from_slice use it)
+                let (d, s) = match (num(d), num(s)) { (Some(d), Some(s)) => (d, s), _ => return "bad-op".into() };
+                self.ensure(d.max(s));
+                if d == s { return "unsupported".into(); }
+                let mut dst = std::mem::replace(&mut self.slots[d], Slot::Empty);
+                let r = match (&mut dst, &self.slots[s]) {
+                    (Slot::Jit(j, t), Slot::Jit(k, u)) => { (**j).clone_from(&**k); *t = *u; "ok" }
+                    (a, b) => if clone_from_gen(a, b) { "ok" } else { "unsupported" },
+                };
+                self.slots[d] = dst;
+                r.into()
+            }
             ["eq", a, b] => {
                 let (a, b) = match (num(a), num(b)) { (Some(a), Some(b)) => (a, b), _ => return "bad-op".into() };
                 self.ensure(a.max(b));
@@ -619,6 +632,18 @@ fn clone_gen<F>(s: &Slot<F>) -> Option<Slot<F>> {
             match s {
                 $( Slot::$t(g) => Some(Slot::$t(g.clone())), )*
                 _ => None,
+            }
+        };
+    }
+    for_all_gens! {arms}
+}
+
+fn clone_from_gen<F>(dst: &mut Slot<F>, src: &Slot<F>) -> bool {
+    macro_rules! arms {
+        ($($t:ident),*) => {
+            match (dst, src) {
+                $( (Slot::$t(a), Slot::$t(b)) => { (**a).clone_from(&**b); true } )*
+                _ => false,
             }
         };
     }
